@@ -27,6 +27,7 @@ class T(param.Parameterized):
     x = param.Integer(default=0, bounds=(0, 50), allow_refs=True)
     y = param.Integer(default=0, allow_refs=True)
     z = param.List(default=[], allow_refs=True, nested_refs=True)
+    w = param.Integer(default=0, allow_refs=True, per_instance=False)     # no per-instance Parameter object
 
 
 def _nwatch(src, tgt):
@@ -60,12 +61,19 @@ def prog(kind: int, at_ctor: bool, k: int, last_is_update: bool, o1: int, v1: in
     def resolve(s):
         return [s.v, s.v + 1, s.v * 2, s.v + 1, s.v + s2.v][kind]
     if pickbool(at_ctor):
-        t = T(x=mkref(s0), y=s1.param.v, z=[s1.param.v, 7])
+        t = T(x=mkref(s0), y=s1.param.v, z=[s1.param.v, 7], w=s1.param.v)
+        linked_w = None
     else:
         t = T()
         t.x = mkref(s0)
         t.y = s1.param.v
         t.z = [s1.param.v, 7]
+        try:
+            t.w = s1.param.v
+            linked_w = None
+        except Exception as e:      # noqa  reported through the label below
+            linked_w = type(e).__name__
+    check('C08.other_links_alive', linked_w is None and t.w == s1.v, {'per_instance_false': True, 'at_ctor': at_ctor, 'raised': linked_w})
     st = {'xsrc': 0, 'ysrc': 1, 'zsrc': 1, 'curx': resolve(s0), 'cury': s1.v}
     ctx = []
     for step, (o, v) in enumerate(((o1, v1), (o2, v2), (o3, v3), (o4, v4))[:k]):
@@ -100,6 +108,8 @@ def prog(kind: int, at_ctor: bool, k: int, last_is_update: bool, o1: int, v1: in
             if newx is not None and not (0 <= newx <= 50):
                 # the resolved value is invalid for x: x keeps its previous (valid) value; the source assignment may raise
                 check('C08.invalid_rejected', t.x == st['curx'], info)
+                if o == 1:
+                    check('C08.other_links_alive', t.w == s1.v, dict(info, sibling_of_rejected=True, per_instance_false=True))
                 if st['ysrc'] == o or st['zsrc'] == o:
                     info = dict(info, sibling_of_rejected=True)
                     if st['ysrc'] == o:
@@ -152,6 +162,7 @@ def prog(kind: int, at_ctor: bool, k: int, last_is_update: bool, o1: int, v1: in
         check('C08.mirrors', t.x == st['curx'], dict(info, x=t.x, expect=st['curx']))
         check('C08.other_links_alive', t.y == srcs[st['ysrc']].v, info)
         check('C08.nested_mirrors', t.z == [srcs[st['zsrc']].v, 7], info)
+        check('C08.other_links_alive', t.w == s1.v, dict(info, per_instance_false=True))
         for i, s in enumerate(srcs):
             need = 1 if (st['xsrc'] == i or st['ysrc'] == i or st['zsrc'] == i) else 0
             check('C08.no_stale_watcher', _nwatch(s, t) == need, dict(info, src=i, have=_nwatch(s, t), need=need))
